@@ -332,7 +332,7 @@ def set_of(units):
 def fault_units():
     """one fault per unit (DESIGN 2.4-3)"""
     ok = [U(["A"]), U(["Bq"], query=True, h=H(items=("7",))), U(["GRP", "X"], data=[DATA["num"]], h=H(pulls=["req"])),
-          U(["*OPC"], query=True, h=H(items=("1",)))]
+          U(["*OPC"], query=True, h=H(items=("1",))), U(["A"], data=[DATA["chr"], DATA["str"]], h=H(pulls=["req", "opt"]))]
     faults = []
     for code, ext in [(-100, 0), (-200, 0), (-222, 0), (-300, 0), (-400, 0), (5, 0), (-113, 0), (-310, 1)]:
         faults.append(U(["A"], h=H(res=(code, ext))))
